@@ -174,12 +174,14 @@ _ADDED = {
     "C01": "Also: integer-typed fields, 257-1500-cell meshes and 17-40 squared grids, domain lengths 1e-9..1e9, nearly uniform meshes, "
            "acoustic (nearly at rest) and one-directional stream data at operator level; solve1d_large: implicit systems just above 256 "
            "unknowns and explicit runs up to 400 cells; call histories mixing dtlocal and default solves. "
-           "Sliver cells (1e-3..1e-8 of their neighbours) and refined ratios of 1e3..1e6, streams with one or two exceptional cells, user-supplied asymmetric limiters.",
+           "Sliver cells (1e-3..1e-8 of their neighbours) and refined ratios of 1e3..1e6, streams with one or two exceptional cells, user-supplied asymmetric limiters."
+           " Source balance against the sources as the caller DECLARED them (nozzle geometric terms recomputed from the section law + the user's callables); Fortran-ordered / strided component arrays.",
     "C02": "Also: integer-typed states, nearly equal and nearly opposite states, one state against an array, sub-arrays selected by regime / "
            "position / at random re-evaluated and compared bit for bit with the full-array call (elementwise), python floats and numpy scalars.",
     "C03": "Also: fields built by fdata_fromprim from python scalars ([rho, [u, v], p]), large meshes, nozzle section laws that vanish exactly "
            "at a mesh face, jump, or are tiny/huge; same-parameter conditions on both sides of one model object (mirror_pairs). "
-           "Supersonic inlet / outlet conditions on sides tangential to the flow.",
+           "Supersonic inlet / outlet conditions on sides tangential to the flow."
+           " Inlet Mach numbers down to 1e-7 (conditioning eps/M added to the tolerance, never divided out of the residual).",
     "C04": "Also: arbitrary mesh origin and every class that builds a uniform mesh, maximum-norm order for the linear schemes, strong Riemann "
            "data (ratios 1e4, supersonic streams) on arbitrary meshes for the packaged reference, nozzle sections in any units. "
            "Expansions through the sonic point (and mirror images): the density jump at the sonic point must shrink under refinement; error decrease strict.",
@@ -191,18 +193,22 @@ _ADDED = {
            "trajectory_in_solve (recorded main trajectory of real solves with save times inside the first step, monitors, used integrators: "
            "Crank-Nicolson start + BDF2 recurrence / theta scheme), nonlinear_step (increment of one real step on Euler / nozzle / shallow "
            "water / Burgers = solution of the linearised system with one global or one per-cell time step). "
-           "large_linear_step (150..2200 unknowns incl. fixed witnesses of the repaired LU element growth, QR reference), stretched_mesh_order (known finding D20: fixed witness + random stretched meshes, exact-operator twin).",
+           "large_linear_step (150..2200 unknowns incl. fixed witnesses of the repaired LU element growth, QR reference), stretched_mesh_order (known finding D20: fixed witness + random stretched meshes, exact-operator twin)."
+           " nonlinear_step in units 1e-8..1e8 of the state.",
     "C07": "Also: stop criteria written in either dictionary order, save times as list / tuple / array, start times up to +-1e6, CFL as numpy "
            "scalar, requests bitwise on trajectory times, integrators used before with another CFL and dtlocal. "
            "Caller's stop / directives / save-time arguments untouched; single steps with every form of a global time step.",
     "C08": "Also: a quarter of the save/monitor purity cases with the dtlocal directive, the verbose directive and the flush option, restart with "
            "another CFL against a fresh object, constructor-level monitors, 2D Euler scenarios. "
-           "One stop / directives dictionary reused across calls with other save times.",
+           "One stop / directives dictionary reused across calls with other save times."
+           " Save times bitwise on trajectory times (taken from a dry run): trajectory with and without requests compared bit for bit.",
     "C09": "Also: data amplitudes 1e-30..1e30 (half of them around the limiters' 1e-20 regularisation scale), small disturbances on a constant, "
-           "uniform meshes from every mesh class, 1- and 2-cell meshes.",
+           "uniform meshes from every mesh class, 1- and 2-cell meshes."
+           " Every returned snapshot (not only the trajectory) within the initial range / total variation, requests just beyond step ends.",
     "C10": "Also: jumps up to 1e8, integer-typed admissible data (refused loudly by the unchanged library = skipped; a run that goes through is "
            "judged), integrators used before with dtlocal and another CFL. "
-           "At-rest and column-at-rest (dam-break / blast) data, gravities over 1e-2..1e2.",
+           "At-rest and column-at-rest (dam-break / blast) data, gravities over 1e-2..1e2."
+           " Gas units over 50 decades (densities / pressures far below machine epsilon in the caller's units), power-of-two unit twins bit for bit.",
     "C11": "Also: nearly uniform meshes, domain lengths 1e-9..1e9, large meshes; kappa operator on constant + small perturbation, tiny, huge and "
            "one-ulp-apart seam data; scheme objects reused on a second mesh.",
     "C12": "Also: nearly equal pairs (ratio 1 +- 1e-15..1e-3), integer-typed slopes, sub-arrays by sign pattern / position / shape compared bit "
@@ -211,12 +217,15 @@ _ADDED = {
            "Tolerances include ulp(x)/dx_min on sliver meshes (bitwise classes unchanged).",
     "C14": "Also: a quarter of the twins with dtlocal, large periodic meshes beyond the exhaustive sizes, grids periodic in one direction only. "
            "Streams with one or two exceptional cells (first / last cell preferred).",
-    "C15": "Also: insup angles on the axes (0, -0.0, 90, 180, 270, 360; int and float), twins sharing one model object.",
+    "C15": "Also: insup angles on the axes (0, -0.0, 90, 180, 270, 360; int and float), twins sharing one model object."
+           " Fortran-ordered and strided-view component arrays (the layout the library itself builds from a uniform state) against their C-contiguous copies.",
     "C16": "Also: integer-typed interior states and parameters, nearly-at-rest states (wall reversal judged relative to the normal component "
-           "itself), normals taken from the mesh, alternating-side call histories on one model object.",
+           "itself), normals taken from the mesh, alternating-side call histories on one model object."
+           " Slow flows (Mach 1e-8..1e-1) in the inverse problems, conditioning eps/M added to the tolerance.",
     "C17": "Also: integer-typed states, mixed scalar / array arguments of prim2cons and cons2prim, large meshes, model objects re-discretised on "
            "other meshes. "
-           "Post-processing helpers (average, stats) and in-place work on the arrays phydata returns, then field and variables re-judged; sub-array twins of the conversions.",
+           "Post-processing helpers (average, stats) and in-place work on the arrays phydata returns, then field and variables re-judged; sub-array twins of the conversions."
+           " Gas units over 50 decades in the round trips.",
     "C18": "Also: fields carrying another model object of the same family, domain lengths 1e-9..1e9, large meshes; only admissible cells are "
            "judged; call histories with other CFL numbers (time steps recomputed by the monitor). "
            "Thin layers / rarefied states over 26 decades (formula of the statement as reference where the eigenvalues are ill-conditioned); under dtlocal the update of the last iteration recomputed with one time step per cell (forward Euler, implicit, Crank-Nicolson).",
